@@ -179,6 +179,12 @@ func (t *Table) addGlobalIndex(gsiInput *types.GlobalSecondaryIndex) error {
 		return err
 	}
 
+	// the items that are already in the table belong to the new index too,
+	// like DynamoDB it skips the items whose index key has not the declared type
+	for _, key := range t.SortedKeys {
+		_ = i.putData(key, t.Data[key])
+	}
+
 	t.Indexes[*gsiInput.IndexName] = i
 
 	return nil
